@@ -50,6 +50,7 @@ type vsState struct {
 }
 
 type vsSys struct {
+	upper    bool // genesis operators spelled in upper case
 	genesis  [][2]string
 	withPlan bool
 	depthTag string
@@ -107,10 +108,11 @@ func namedSet(m map[string]int64) string {
 
 func (y *vsSys) Root() *vsState {
 	w := world.NewL2(world.L2Options{
-		Accounts:   map[string]sdk.Coins{"e1": nil, "e2": nil, "admin": nil, "o1": nil, "o2": nil, "o3": nil},
-		Executors:  []string{"e1"},
-		Validators: y.genesis,
-		Params:     func(p *opchildtypes.Params) { p.MaxValidators = 3; p.HistoricalEntries = 1 },
+		Accounts:                  map[string]sdk.Coins{"e1": nil, "e2": nil, "admin": nil, "o1": nil, "o2": nil, "o3": nil},
+		Executors:                 []string{"e1"},
+		Validators:                y.genesis,
+		UpperCaseGenesisOperators: y.upper,
+		Params:                    func(p *opchildtypes.Params) { p.MaxValidators = 3; p.HistoricalEntries = 1 },
 	})
 	vals, err := cmttypes.PB2TM.ValidatorUpdates(w.GenesisUpdates)
 	if err != nil {
@@ -227,7 +229,7 @@ func (s *vsState) stateSets(ctx sdk.Context) (positive, last map[string]int64, z
 	}
 	byOp := map[string]opchildtypes.Validator{}
 	for _, val := range vals {
-		byOp[val.OperatorAddress] = val
+		byOp[canonOp(val.OperatorAddress)] = val
 		pk, err := val.ConsPubKey()
 		if err != nil {
 			return nil, nil, nil, viol("state-readable", "ConsPubKey: %v", err)
@@ -239,7 +241,7 @@ func (s *vsState) stateSets(ctx sdk.Context) (positive, last map[string]int64, z
 		if val.ConsPower > 0 {
 			positive[hex.EncodeToString(tmpk.Bytes())] = val.ConsPower
 		} else {
-			zombies = append(zombies, opName(val.OperatorAddress))
+			zombies = append(zombies, opName(canonOp(val.OperatorAddress)))
 		}
 	}
 	err = s.w.K.IterateLastValidatorPowers(ctx, func(op []byte, power int64) (bool, error) {
@@ -376,7 +378,7 @@ func (y *vsSys) nextBlock(s, c *vsState) (*vsState, string, *engine.Violation) {
 				pl.opHadRecordWithOtherKey = true
 			}
 		}
-		if val, found := s.w.K.GetValidatorByConsAddr(ctx, sdk.GetConsAddress(world.EdKey(pl.key).PubKey())); found && val.OperatorAddress != valOf(pl.op) {
+		if val, found := s.w.K.GetValidatorByConsAddr(ctx, sdk.GetConsAddress(world.EdKey(pl.key).PubKey())); found && canonOp(val.OperatorAddress) != valOf(pl.op) {
 			pl.keyUnderOtherOperator = true
 		}
 		all, _ := s.w.K.GetAllValidators(ctx)
@@ -461,7 +463,7 @@ func (y *vsSys) nextBlock(s, c *vsState) (*vsState, string, *engine.Violation) {
 		return c, "error", viol("state-readable", "Validators query: %v", err)
 	}
 	for _, val := range qv.Validators {
-		if s.removed[opName(val.OperatorAddress)] && !(planNow && opName(val.OperatorAddress) == pl.op) {
+		if s.removed[opName(canonOp(val.OperatorAddress))] && !(planNow && opName(canonOp(val.OperatorAddress)) == pl.op) {
 			bonded := "never bonded"
 			if pk, err := val.ConsPubKey(); err == nil {
 				if t, err := cryptocodec.ToCmtPubKeyInterface(pk); err == nil {
@@ -470,7 +472,7 @@ func (y *vsSys) nextBlock(s, c *vsState) (*vsState, string, *engine.Violation) {
 					}
 				}
 			}
-			return c, "zombie", tagged(T(viol("removed-validator-gone-by-end-of-block", "%s was removed in block %d but is still in Query/Validators after EndBlock (power %d, %s)", opName(val.OperatorAddress), h, val.ConsPower, bonded)), "zombie", bonded)
+			return c, "zombie", tagged(T(viol("removed-validator-gone-by-end-of-block", "%s was removed in block %d but is still in Query/Validators after EndBlock (power %d, %s)", opName(canonOp(val.OperatorAddress)), h, val.ConsPower, bonded)), "zombie", bonded)
 		}
 	}
 	if v := y.indexes(c); v != nil {
@@ -596,38 +598,38 @@ func (y *vsSys) indexes(s *vsState) *engine.Violation {
 	for _, val := range vals {
 		ca, err := val.GetConsAddr()
 		if err != nil {
-			return viol("indexes-one-to-one", "validator %s has no cons addr: %v", opName(val.OperatorAddress), err)
+			return viol("indexes-one-to-one", "validator %s has no cons addr: %v", opName(canonOp(val.OperatorAddress)), err)
 		}
 		op, err := s.w.K.ValidatorsByConsAddr.Get(ctx, ca)
 		if err != nil {
-			return viol("indexes-one-to-one", "validator %s has no consensus-key index entry", opName(val.OperatorAddress))
+			return viol("indexes-one-to-one", "validator %s has no consensus-key index entry", opName(canonOp(val.OperatorAddress)))
 		}
-		if sdk.ValAddress(op).String() != val.OperatorAddress {
-			return viol("indexes-one-to-one", "consensus-key index of %s points to %s", opName(val.OperatorAddress), opName(sdk.ValAddress(op).String()))
+		if sdk.ValAddress(op).String() != canonOp(val.OperatorAddress) {
+			return viol("indexes-one-to-one", "consensus-key index of %s points to %s", opName(canonOp(val.OperatorAddress)), opName(sdk.ValAddress(op).String()))
 		}
 		qr, err := s.w.Q.Validator(ctx, &opchildtypes.QueryValidatorRequest{ValidatorAddr: val.OperatorAddress})
 		if err != nil || !qr.Validator.Equal(&val) {
-			return viol("indexes-one-to-one", "Validator query for %s disagrees with the store (err=%v)", opName(val.OperatorAddress), err)
+			return viol("indexes-one-to-one", "Validator query for %s disagrees with the store (err=%v)", opName(canonOp(val.OperatorAddress)), err)
 		}
 		// the staking-style accessors other modules use (ibc, upgrade) answer the same
 		vi := s.w.K.ValidatorByConsAddr(ctx, ca)
-		if vi == nil || vi.GetOperator() != val.OperatorAddress {
-			return viol("indexes-one-to-one", "ValidatorByConsAddr(key of %s) answers %v", opName(val.OperatorAddress), vi)
+		if vi == nil || canonOp(vi.GetOperator()) != canonOp(val.OperatorAddress) {
+			return viol("indexes-one-to-one", "ValidatorByConsAddr(key of %s) answers %v", opName(canonOp(val.OperatorAddress)), vi)
 		}
-		opBz, _ := sdk.ValAddressFromBech32(val.OperatorAddress)
-		if vo := s.w.K.Validator(ctx, opBz); vo == nil || vo.GetOperator() != val.OperatorAddress || vo.GetConsensusPower() != val.ConsPower {
-			return viol("indexes-one-to-one", "Validator(%s) answers %v", opName(val.OperatorAddress), vo)
+		opBz, _ := sdk.ValAddressFromBech32(canonOp(val.OperatorAddress))
+		if vo := s.w.K.Validator(ctx, opBz); vo == nil || canonOp(vo.GetOperator()) != canonOp(val.OperatorAddress) || vo.GetConsensusPower() != val.ConsPower {
+			return viol("indexes-one-to-one", "Validator(%s) answers %v", opName(canonOp(val.OperatorAddress)), vo)
 		}
 		n++
 	}
 	var walked []string
 	_ = s.w.K.IterateValidators(ctx, func(v opchildtypes.ValidatorI) (bool, error) {
-		walked = append(walked, v.GetOperator())
+		walked = append(walked, canonOp(v.GetOperator()))
 		return false, nil
 	})
 	var lastWalk, lastStore []string
 	if err := s.w.K.IterateLastValidators(ctx, func(v opchildtypes.ValidatorI, power int64) (bool, error) {
-		lastWalk = append(lastWalk, fmt.Sprintf("%s:%d", v.GetOperator(), power))
+		lastWalk = append(lastWalk, fmt.Sprintf("%s:%d", canonOp(v.GetOperator()), power))
 		return false, nil
 	}); err != nil {
 		return viol("indexes-one-to-one", "IterateLastValidators: %v", err)
@@ -646,7 +648,7 @@ func (y *vsSys) indexes(s *vsState) *engine.Violation {
 	// Query/Validators, whole and paged one by one, lists exactly the stored validators
 	var stored []string
 	for _, val := range vals {
-		stored = append(stored, val.OperatorAddress)
+		stored = append(stored, canonOp(val.OperatorAddress))
 	}
 	for _, lim := range []uint64{0, 1, 2} {
 		var got []string
@@ -661,7 +663,7 @@ func (y *vsSys) indexes(s *vsState) *engine.Violation {
 				return viol("state-readable", "Validators query (limit %d): %v", lim, err)
 			}
 			for _, qval := range qv.Validators {
-				got = append(got, qval.OperatorAddress)
+				got = append(got, canonOp(qval.OperatorAddress))
 			}
 			if lim == 0 || qv.Pagination == nil || len(qv.Pagination.NextKey) == 0 {
 				break
@@ -686,7 +688,7 @@ func (y *vsSys) indexes(s *vsState) *engine.Violation {
 		}
 		vca, _ := val.GetConsAddr()
 		if !bytes.Equal(vca, ca) {
-			v = viol("indexes-one-to-one", "stale consensus-key index entry for operator %s", opName(val.OperatorAddress))
+			v = viol("indexes-one-to-one", "stale consensus-key index entry for operator %s", opName(canonOp(val.OperatorAddress)))
 			return true, nil
 		}
 		return false, nil
@@ -867,4 +869,13 @@ func (y *vsSys) registrationProbes(s *vsState) *engine.Violation {
 		return tagged(viol("malformed-plan-is-rejected", "a rejected plan of the probe family left side effects in the stores"), "probe", "family")
 	}
 	return nil
+}
+
+// canonOp returns the canonical spelling of an operator address (the stores keep the spelling they were given).
+func canonOp(s string) string {
+	b, err := sdk.ValAddressFromBech32(s)
+	if err != nil {
+		return s
+	}
+	return sdk.ValAddress(b).String()
 }
